@@ -679,8 +679,20 @@ func executeDirectives(inst *Instance, filename string,
 	return nil
 }
 
-func startServers(serverList []Server, inst *Instance, restartFds map[string]restartTriple) error {
+func startServers(serverList []Server, inst *Instance, restartFds map[string]restartTriple) (startErr error) {
 	errChan := make(chan error, len(serverList))
+
+	// If a later server fails to get its listener, the instance is
+	// discarded by the caller; close what has been opened so far so
+	// that a failed start leaves no listening sockets behind.
+	var opened []io.Closer
+	defer func() {
+		if startErr != nil {
+			for _, c := range opened {
+				c.Close()
+			}
+		}
+	}()
 
 	// used for signaling to error logging goroutine to terminate
 	stopChan := make(chan struct{})
@@ -770,11 +782,17 @@ func startServers(serverList []Server, inst *Instance, restartFds map[string]res
 				return fmt.Errorf("Listen: %v", err)
 			}
 		}
+		if ln != nil {
+			opened = append(opened, ln)
+		}
 		if pc == nil {
 			pc, err = s.ListenPacket()
 			if err != nil {
 				return fmt.Errorf("ListenPacket: %v", err)
 			}
+		}
+		if pc != nil {
+			opened = append(opened, pc)
 		}
 
 		inst.servers = append(inst.servers, ServerListener{server: s, listener: ln, packet: pc})
